@@ -559,7 +559,11 @@ func (p *Parser) parseOption(s *parseState, name string, option *Option, canarg 
 			err = option.Set(&arg)
 		}
 	} else if option.OptionalArgument {
-		option.empty()
+		// Occurrences of a slice or map option accumulate (Set empties the
+		// value at the first one)
+		if !option.isCollection() {
+			option.empty()
+		}
 
 		// The option occurred, even if it declares no optional-value
 		option.isSet = true
